@@ -770,6 +770,11 @@ impl<'a, 'b, 'c> G<'a, 'b, 'c> {
                     if self.cfg.non_ascii && self.c.chance(40) {
                         em.raw("/// fünction 💣\n");
                     }
+                    // an attribute in front of the definition (and of its `pub`): the function is as
+                    // public, and as much a function, as without it
+                    if self.c.chance(36) {
+                        em.raw(*self.c.pick(&["@external(erlang, \"zmod\", \"zfun\")\n", "@target(erlang)\n", "@external(javascript, \"./z.mjs\", \"zfun\")\n@external(erlang, \"zmod\", \"zfun\")\n"]));
+                    }
                     if f.public {
                         em.raw("pub ");
                     }
